@@ -220,3 +220,5 @@ PROPS["C13"]["thorough_engines"] = [_hist("lib", sc, "C13", w) for sc, w in [
     ("change_during_apply_is_not_lost", "a configuration change made while the previous one is being applied is applied")]]
 PROPS["C18"]["thorough_engines"] = PROPS["C18"]["fallback"]
 PROPS["C08"]["thorough_engines"] = PROPS["C08"]["fallback"]
+PROPS["C14"]["thorough_engines"] = [replay_engine("ignorefiles", "discovery_exact_on_a_small_tree", "C14.bounded.discovery_exact_on_a_small_tree",
+    "from_origin on one hand-made tree (prefix-named siblings, two ignore files in one directory, an ignored subtree, a VCS metadata directory, an empty file, nested directories): exactly the applicable files, each tagged with its directory")]
